@@ -46,7 +46,10 @@ def cases(draw, tier):
     grp = draw(st.sampled_from(groups))
     rules = []
     for out_name in grp:
-      algo, c = draw(st.sampled_from(R.COMMON_CFGS + [(R.NOQ, R.DEFAULT)]))
+      is_fc = any(n['op'] == 'FULLY_CONNECTED' and sg['tensors'][n['out'][0]]['name'] == out_name
+                  for sg in mspec['subgraphs'] for n in sg['nodes'])
+      algo, c = draw(st.sampled_from(R.COMMON_CFGS + [(R.NOQ, R.DEFAULT)] * 3 +
+                                     ([BLOCKWISE] * 6 if is_fc else [])))
       rules.append(R.rule(_re.escape(out_name), '*', algo, dict(c)))
     if draw(st.booleans()):
       algo, c = draw(st.sampled_from(R.COMMON_CFGS))
@@ -63,6 +66,8 @@ def cases(draw, tier):
 
 
 _sharer_groups = G.sharer_groups
+# blockwise (emulated sub-channel) weights: reachable with skip_checks only
+BLOCKWISE = (R.MINMAX, R.cfg(w=[8, True, 'BLOCKWISE', 'INT', 2], cp='FLOAT', ed=True, skip=True))
 
 
 def check_case(case):
@@ -76,10 +81,6 @@ def check_case(case):
     return core.result(False, labels + ['rejected:' + core.exc_bucket(out.exc)[:60]])
   labels.append('returned')
   src, res = fb.parse(out.model_bytes), fb.parse(out.qbytes)
-  try:
-    ms = skeleton.match(src, res)
-  except Violation as v:
-    return core.result(False, labels + ['skeleton_mismatch(C02):' + v.tag])
   # --- every buffer: all referencing tensors agree with the stored bytes
   users = {}
   for si, og in enumerate(res['subgraphs']):
@@ -104,6 +105,11 @@ def check_case(case):
                             t['name'], fb.TYPE_NAME.get(t['type']), (t['scale'] or [])[:2]))
     if len(ts) >= 2 and first['scale'] is not None:
       rewritten_sharers += 1
+  # (an op replaced by an emulation sub-graph, as blockwise does, ends the check here)
+  try:
+    ms = skeleton.match(src, res)
+  except Violation as v:
+    return core.result(False, labels + ['skeleton_mismatch(C02):' + v.tag])
   # --- every original constant still denotes (within one step) its values
   for si, (m, sg, og) in enumerate(zip(ms, src['subgraphs'], res['subgraphs'])):
     for ti in range(m.n_src_tensors):
